@@ -148,6 +148,13 @@ def task(states):
                     fail("value", "logabsdet(%s) = %s, log|det| = %s" % (m.tolist(), float(r), exp))
             elif f == "mask":
                 kind, feat = str(c["kind"]), int(c["feat"])
+                # Utils.tla gives the result as a function of the call alone: it does not depend on what
+                # a caller did to an earlier result (masks are routinely edited in place: mask[i] = 0,
+                # 1 - mask via mask.mul_(-1).add_(1))
+                if kind in ("alt_even", "alt_odd", "mid"):
+                    first = U.create_alternating_binary_mask(feat, even=(kind == "alt_even")) if kind != "mid" else U.create_mid_split_binary_mask(feat)
+                    first.mul_(0).add_(1)
+                    first[0] = 0
                 if kind in ("alt_even", "alt_odd"):
                     r = U.create_alternating_binary_mask(feat, even=(kind == "alt_even"))
                     if [int(v) for v in r.tolist()] != [int(v) for v in spec["m"]]:
